@@ -195,6 +195,13 @@ def DepFor (s : Storage) (r : Rev) : Read → Prop
     (∃ d, d ∈ r.deps ∧ d.node = .derived q) ∧
     ∃ rq, alookup s.derived q = some rq ∧ (rq.deps ≠ [] → r.tv ≤ rq.tv) ∧ (rq.tu ≤ r.tv → rq.val = w)
 
+/-- what the verification of dependency `d` found, and would find again: nothing to do -/
+def DepQuiet (s : Storage) (d : Dep) : Prop :=
+  match d.node with
+  | .source k => ∃ nd, alookup s.srcs k = some nd ∧ nd.tu ≤ d.stamp
+  | .absent k => alookup s.srcs k = none
+  | .derived q => ∃ rq, alookup s.derived q = some rq ∧ rq.tu ≤ d.stamp ∧ (rq.deps = [] ∨ rq.tv = s.epoch)
+
 /-- what a stored revision that is not being worked on satisfies -/
 structure RevOk (P : Prog) (s : Storage) (n : NodeId) (r : Rev) : Prop where
   tv_le : r.tv ≤ s.epoch
@@ -202,6 +209,7 @@ structure RevOk (P : Prog) (s : Storage) (n : NodeId) (r : Rev) : Prop where
   stamps : ∀ d, d ∈ r.deps → d.stamp ≤ r.tv
   tu_stamp : ∀ d, d ∈ r.deps → r.tu ≤ d.stamp
   correct : r.tv = s.epoch → ∃ R, BigN P s.srcs s.maps n r.val R
+  quiet : r.tv = s.epoch → ∀ d, d ∈ r.deps → DepQuiet s d
   ghost : ∃ σx mx R, BigN P σx mx n r.val R ∧ (∀ rd, rd ∈ R → DepFor s r rd) ∧
     (∀ d, d ∈ r.deps → ∃ rd, rd ∈ R ∧ rd.kind = d.node) ∧
     r.deps.map (·.node) = pushAll [] (R.map Read.kind)
@@ -214,7 +222,6 @@ structure INV (P : Prog) (s : Storage) (B : List NodeId) : Prop where
   mapsInit : MapsInit s
   nodes : ∀ n r, alookup s.derived n = some r → n ∉ B → RevOk P s n r
   busyTv : ∀ n r, alookup s.derived n = some r → n ∈ B → r.tv = s.epoch
-  evalOk : ∀ n r, alookup s.derived n = some r → ∃ v R, BigN P s.srcs s.maps n v R
 
 /-- what may happen to the stored nodes while something else is brought up to date; only nodes
 satisfying `bp` are touched or created -/
@@ -282,10 +289,34 @@ theorem DepFor.evolves {bp : NodeId → Prop} {s s' : Storage} {r : Rev} {rd : R
           have := hmono hne
           omega
 
+theorem DepQuiet.evolves {bp : NodeId → Prop} {s s' : Storage} {d : Dep} (he : Evolves bp s s') (h : DepQuiet s d) :
+    DepQuiet s' d := by
+  unfold DepQuiet at h ⊢
+  cases hn : d.node with
+  | source k => rw [hn] at h; simp only at h ⊢; rw [he.srcs]; exact h
+  | absent k => rw [hn] at h; simp only at h ⊢; rw [he.srcs]; exact h
+  | derived q =>
+    rw [hn] at h; simp only at h ⊢
+    obtain ⟨rq, hq, htu, hdv⟩ := h
+    obtain ⟨rq', hq', hc⟩ := he.node q rq hq
+    rcases hc with rfl | ⟨_, hlt, htv', hcase⟩
+    · exact ⟨rq', hq', htu, by rw [he.epoch]; exact hdv⟩
+    · rcases hcase with ⟨_, htu'⟩ | ⟨hne, _⟩
+      · exact ⟨rq', hq', by rw [htu']; exact htu, Or.inr (by rw [he.epoch]; exact htv')⟩
+      · rcases hdv with hdv | hdv
+        · exact absurd hdv hne
+        · omega
+
+theorem DepQuiet.congr {s : Storage} {d : Dep} (h : DepQuiet s d) {s' : Storage} (he : s'.epoch = s.epoch)
+    (hs : s'.srcs = s.srcs) (hd : s'.derived = s.derived) : DepQuiet s' d := by
+  unfold DepQuiet at h ⊢
+  rw [he, hs, hd]; exact h
+
 theorem RevOk.evolves {P : Prog} {bp : NodeId → Prop} {s s' : Storage} {n : NodeId} {r : Rev} (he : Evolves bp s s') (h : RevOk P s n r) :
     RevOk P s' n r := by
-  refine ⟨by rw [he.epoch]; exact h.tv_le, h.tu_tv, h.stamps, h.tu_stamp, ?_, ?_⟩
+  refine ⟨by rw [he.epoch]; exact h.tv_le, h.tu_tv, h.stamps, h.tu_stamp, ?_, ?_, ?_⟩
   · intro ht; rw [he.srcs, he.maps]; exact h.correct (by rw [← he.epoch]; exact ht)
+  · intro ht d hd; exact (h.quiet (by rw [← he.epoch]; exact ht) d hd).evolves he
   · obtain ⟨σx, mx, R, hb, hd, hx⟩ := h.ghost
     exact ⟨σx, mx, R, hb, fun rd hrd => (hd rd hrd).evolves he h.tv_le, hx⟩
 
@@ -299,19 +330,19 @@ theorem DepFor.congr {s : Storage} {r : Rev} {rd : Read} (h : DepFor s r rd) {s'
 theorem RevOk.congr {P : Prog} {s : Storage} {n : NodeId} {r : Rev} (h : RevOk P s n r) {s' : Storage}
     (he : s'.epoch = s.epoch) (hs : s'.srcs = s.srcs) (hm : s'.maps = s.maps) (hd : s'.derived = s.derived) :
     RevOk P s' n r := by
-  refine ⟨by rw [he]; exact h.tv_le, h.tu_tv, h.stamps, h.tu_stamp, ?_, ?_⟩
+  refine ⟨by rw [he]; exact h.tv_le, h.tu_tv, h.stamps, h.tu_stamp, ?_, ?_, ?_⟩
   · intro ht; rw [hs, hm]; exact h.correct (by rw [← he]; exact ht)
+  · intro ht d' hd'; exact (h.quiet (by rw [← he]; exact ht) d' hd').congr he hs hd
   · obtain ⟨σx, mx, R, hb, hdf, hx⟩ := h.ghost
     exact ⟨σx, mx, R, hb, fun rd hrd => (hdf rd hrd).congr hs hm hd, hx⟩
 
 theorem INV.congr {P : Prog} {s : Storage} {B : List NodeId} (h : INV P s B) {s' : Storage} (he : s'.epoch = s.epoch)
     (hs : s'.srcs = s.srcs) (hm : s'.maps = s.maps) (hd : s'.derived = s.derived)
     (hstk : ∀ fr, fr ∈ s'.stack → fr.id ∈ B) : INV P s' B := by
-  refine ⟨by rw [he]; exact h.epochPos, hstk, ?_, ?_, ?_, ?_, ?_⟩
+  refine ⟨by rw [he]; exact h.epochPos, hstk, ?_, ?_, ?_, ?_⟩
   · intro k nd hk; rw [he]; rw [hs] at hk; exact h.srcTu k nd hk
   · intro i hi; rw [hs] at hi; rw [hm]; exact h.mapsInit i hi
   · intro n r hn hb; rw [hd] at hn; exact (h.nodes n r hn hb).congr he hs hm hd
   · intro n r hn hb; rw [hd] at hn; rw [he]; exact h.busyTv n r hn hb
-  · intro n r hn; rw [hd] at hn; rw [hs, hm]; exact h.evalOk n r hn
 
 end IsoVerif.Pico
